@@ -39,7 +39,7 @@ def step (line : String) : String :=
             (List.range n).findSome? (fun i => if nm == strInts ("x" ++ toString i) then some (Lin.var (i + off) R.one) else none)
           match evalA constFree env e with
           | .ok l => Lin.toStr l
-          | .error err => "error:" ++ (match err with | .unknownId => "id" | .nonLinear => "nonlinear" | .notArith => "notarith" | .arity => "arity")
+          | .error err => "error:" ++ (match err with | .unknownId => "id" | .nonLinear => "nonlinear" | .notArith => "notarith" | .arity => "arity" | .divZero => "divzero")
     | _, _, _ => "exception:bad-op"
   | [] => ""
   | _ => "exception:bad-op"
